@@ -8,6 +8,7 @@ BUILD = os.path.join(ROOT, ".build")
 FEATURES = {
     "default": [],
     "all": ["luau", "lua52", "lua53", "lua54", "luajit"],
+    "luajit": ["luajit"],      # a supported Cargo feature on its own: full_moon then has Goto/Label statements, StyLua's lua52 module is off
 }
 # cfg features of the stylua crate itself that are on in both sets (Cargo default features)
 ALWAYS = ["editorconfig"]
@@ -109,6 +110,14 @@ def run_unit(unit, fs, seed=0, rlimit=None, keep=True, tag=""):
         ploc = prim or (spans[0] if spans else None)
         pl = ploc["line_start"] if ploc else 0
         fr = fn_at(pl) if pl else None
+        if fr is None and ploc is not None:
+            # the span lies inside a macro definition (fmt_stmt!, fmt_symbol!, panic!): walk out to the call site
+            e = ploc.get("expansion")
+            while e and fr is None:
+                cl = e["span"]["line_start"]
+                fr = fn_at(cl)
+                if fr: pl = cl
+                e = e["span"].get("expansion")
         if fr is None:
             # a postcondition failure's primary span may be the whole function / the clause
             for sp in spans:
@@ -125,7 +134,7 @@ def run_unit(unit, fs, seed=0, rlimit=None, keep=True, tag=""):
         if "VX.canary" in labs:
             res["canary_failed"] = True
             continue
-        if not labs and fr is not None and fr.get("mode") == "verify":
+        if not labs and fr is not None and fr.get("mode") == "verify" and msg.lower().startswith("assertion failed"):
             # an unlabelled failure inside a function under contract (a proof hint that no longer holds, a callee
             # precondition without label, arithmetic): the function's own contract clauses are not established
             entry["implied_labels"] = [lab for lab, lns in meta["label_lines"].items() if any(fr["lo"] <= ln <= fr["hi"] for ln in lns)]
